@@ -13,12 +13,14 @@ package selfupdate
 //   signature  {valid, asset absent, empty, 3 single-byte flips, by a foreign
 //               key, valid signature over different content, a public key
 //               block instead of a signature}
-// x SHA256SUMS {22 variants: correct, our name first/second, hash of another
+// x SHA256SUMS {26 variants: correct, our name first/second, hash of another
 //               file listed for our name, name absent, duplicate entries,
 //               name only a suffix/prefix of a listed name, ./name, upper-case
 //               name, 1 space / tab / 3 spaces / " *" separators, upper-case
 //               hex, CRLF, short hash, empty hash, hash with trailing garbage,
-//               hash of exactly the served bytes, empty file, no final newline}
+//               hash of exactly the served bytes, empty file, no final newline,
+//               files of 121 lines (> 10 KiB) with our entry first / in the
+//               middle / last / carrying another file's hash}
 // x archive    {intact, the other valid archive, byte flipped at first /
 //               middle / last position, truncated to 0 / half / len-1, intact
 //               content offered under a different file name, + with valid
@@ -174,6 +176,17 @@ var (
 )
 
 // verifC51Listed returns the hashes listed for exactly name by the strict and the lenient reference parsers.
+// verifC51Filler returns checksum lines for other (invented) release files.
+func verifC51Filler(from, to int) string {
+	var sb strings.Builder
+	for i := from; i < to; i++ {
+		name := fmt.Sprintf("restic_0.99.0_os%03d_arch%d.bz2", i, i%7)
+		sum := sha256.Sum256([]byte(name))
+		sb.WriteString(hex.EncodeToString(sum[:]) + "  " + name + "\n")
+	}
+	return sb.String()
+}
+
 func verifC51Listed(sums []byte, name string) (strict, lenient []string) {
 	for _, line := range strings.Split(string(sums), "\n") {
 		if m := verifC51Strict.FindStringSubmatch(line); m != nil && m[2] == name {
@@ -300,6 +313,16 @@ func TestVerif_C51(t *testing.T) {
 		{"hash-garbage", func(verifC51Archive) string { return h0 + "zz  " + n0 + "\n" }},
 		{"for-served", func(ar verifC51Archive) string {
 			return hb + "  " + other + "\n" + verifC51Hex(ar.data) + "  " + ar.asset + "\n"
+		}},
+		// a checksum file longer than any read buffer (real ones have ~25 lines; 120 here, > 10 KiB): the
+		// entry for our name first, in the middle, last; and with another file's hash for our name
+		{"long-correct-first", func(verifC51Archive) string { return h0 + "  " + n0 + "\n" + verifC51Filler(0, 120) }},
+		{"long-correct-middle", func(verifC51Archive) string {
+			return verifC51Filler(0, 60) + h0 + "  " + n0 + "\n" + verifC51Filler(60, 120)
+		}},
+		{"long-correct-last", func(verifC51Archive) string { return verifC51Filler(0, 120) + h0 + "  " + n0 + "\n" }},
+		{"long-other-hash", func(verifC51Archive) string {
+			return hb + "  " + n0 + "\n" + verifC51Filler(0, 60) + h0 + "  " + other + "\n" + verifC51Filler(60, 120)
 		}},
 		{"empty-file", func(verifC51Archive) string { return "" }},
 		{"no-final-newline", func(verifC51Archive) string { return hb + "  " + other + "\n" + h0 + "  " + n0 }},
